@@ -50,4 +50,145 @@ theorem c04_gen_flag_write (m : Gen.Rt.Map Nat Nat) (hm : m.isSome) (mt : Nat) (
 /-- a table nobody wrote to answers "not aggregated" everywhere, like `Reg.empty` -/
 theorem c04_gen_flags_empty : flagsOf (some []) = Reg.empty.flags := by
   funext t; simp [flagsOf, Gen.Rt.Map.get, Gen.Rt.Map.find, Reg.empty]
+
+/-! ### `aggregate` -/
+
+/-- a translated message read as the model's: its type, its sender (`none` = the node's parent `pid`), and — the
+translated struct keeps no payload — the sender id again as the payload tag -/
+def msgOf (pid : Nat) (pm : Gen.C04.ProtocolMsg) : Msg :=
+  { ty := pm.MsgType, src := if pm.From.TreeNodeID == pid then none else some pm.From.TreeNodeID,
+    val := pm.From.TreeNodeID }
+
+/-- the translated queues read as the model's (an absent entry is the empty queue) -/
+def queuesOf (pid : Nat) (q : Gen.Rt.Map Nat (List Gen.C04.ProtocolMsg)) : Queues :=
+  fun t => (Gen.Rt.Map.get q t []).map (msgOf pid)
+
+/-- what the instance knows, read off the translated instance and the three accessors -/
+def cfgOf (n : Gen.C04.TreeNodeInstance) (root : Bool) (kids : List Gen.C04.TreeNode) : Cfg :=
+  { isRoot := root, nChildren := kids.length, agg := flagsOf n.messageTypeFlags }
+
+private theorem get_insert (l : List (Nat × List Gen.C04.ProtocolMsg)) (k : Nat) (v : List Gen.C04.ProtocolMsg) (t : Nat) :
+    Gen.Rt.Map.get (some ((k, v) :: l)) t [] = if t = k then v else Gen.Rt.Map.get (some l) t [] := by
+  by_cases h : t = k
+  · subst h; simp [Gen.Rt.Map.get, Gen.Rt.Map.find, List.lookup]
+  · have : (t == k) = false := by simp [h]
+    simp [Gen.Rt.Map.get, Gen.Rt.Map.find, List.lookup, this, h]
+
+private theorem get_erase (l : List (Nat × List Gen.C04.ProtocolMsg)) (k t : Nat) :
+    Gen.Rt.Map.get (Gen.Rt.Map.erase (some l) k) t [] = if t = k then [] else Gen.Rt.Map.get (some l) t [] := by
+  simp only [Gen.Rt.Map.get, Gen.Rt.Map.find, Gen.Rt.Map.erase, Option.map_some, Option.getD_some]
+  induction l with
+  | nil => simp [List.lookup]
+  | cons p rest ih =>
+    obtain ⟨k', v'⟩ := p
+    by_cases hk : k' = k
+    · subst hk
+      by_cases ht : t = k'
+      · subst ht; simpa [List.filter_cons, List.lookup] using ih
+      · have : (t == k') = false := by simp [ht]
+        simpa [List.filter_cons, List.lookup, this, ht] using ih
+    · have hk' : (k' == k) = false := by simp [hk]
+      by_cases ht : t = k'
+      · subst ht; simp [List.filter_cons, List.lookup, hk', hk]
+      · have : (t == k') = false := by simp [ht]
+        simp only [List.filter_cons, hk', Bool.not_false, if_true, List.lookup, this]
+        exact ih
+
+/-- **`aggregate` as translated is the model's `aggregate`.**  For an instance whose queue table is not the nil map
+(`newTreeNodeInstance` makes it), whatever `IsRoot()`, `Parent()` and `Children()` answer (they do not look at the
+queues): the call does not panic; it returns the message's type; the flag says whether a batch is due and the batch,
+read as model messages, is the model's; the queues afterwards, read as the model's, are the model's. -/
+theorem c04_gen_aggregate_eq (n : Gen.C04.TreeNodeInstance) (hq : n.msgQueue.isSome) (pm : Gen.C04.ProtocolMsg)
+    (root : Bool) (par : Gen.C04.TreeNode) (kids : List Gen.C04.TreeNode) :
+    ∃ msgs due n', Gen.C04.TreeNodeInstance_aggregate n pm (fun _ => root) (fun _ => par) (fun _ => kids) =
+        some (pm.MsgType, msgs, due, n') ∧
+      n'.messageTypeFlags = n.messageTypeFlags ∧
+      queuesOf par.ID n'.msgQueue = (aggregate (cfgOf n root kids) (queuesOf par.ID n.msgQueue) (msgOf par.ID pm)).1 ∧
+      (if due then some (msgs.map (msgOf par.ID)) else none) =
+        (aggregate (cfgOf n root kids) (queuesOf par.ID n.msgQueue) (msgOf par.ID pm)).2 := by
+  obtain ⟨fl, q⟩ := n
+  cases q with
+  | none => simp at hq
+  | some l =>
+    have hfp : fromParent (cfgOf ⟨fl, some l⟩ root kids) (msgOf par.ID pm) =
+        (!root && (pm.From.TreeNodeID == par.ID)) := by
+      simp only [fromParent, cfgOf, msgOf]
+      cases h : (pm.From.TreeNodeID == par.ID) <;> simp [h]
+    have hflag : Gen.C04.TreeNodeInstance_hasFlag ⟨fl, some l⟩ pm.MsgType 1 = flagsOf fl pm.MsgType := rfl
+    have hbyp0 : bypass (cfgOf ⟨fl, some l⟩ root kids) (msgOf par.ID pm) =
+        ((!root && (pm.From.TreeNodeID == par.ID)) || !flagsOf fl pm.MsgType) := by
+      simp only [bypass, hfp]; rfl
+    unfold Gen.C04.TreeNodeInstance_aggregate
+    simp only [hflag]
+    by_cases hb : ((!root && (pm.From.TreeNodeID == par.ID)) || !flagsOf fl pm.MsgType) = true
+    · -- the message skips the queue
+      rw [hb] at hbyp0
+      refine ⟨[pm], true, ⟨fl, some l⟩, ?_, rfl, ?_, ?_⟩
+      · simp only [hb, if_true]
+      · simp only [aggregate, hbyp0, if_true]
+      · simp only [aggregate, hbyp0, if_true, List.map]
+    · have hb' : ((!root && (pm.From.TreeNodeID == par.ID)) || !flagsOf fl pm.MsgType) = false := by
+        simpa using hb
+      have hbyp : bypass (cfgOf ⟨fl, some l⟩ root kids) (msgOf par.ID pm) = false := by rw [hbyp0, hb']
+      simp only [hb', Bool.false_eq_true, if_false]
+      have harith : ∀ a b : Nat, (((a : Int) + 1) == (b : Int)) = decide (a + 1 = b) := by
+        intro a b
+        by_cases h : a + 1 = b
+        · subst h; simp
+        · have h' : ¬ ((a : Int) + 1 = (b : Int)) := by omega
+          simp [h, h']
+      -- the second half, for the table `l'` the first half leaves (same entries as `l` as far as `get` can tell)
+      have tail : ∀ l' : List (Nat × List Gen.C04.ProtocolMsg),
+          (∀ t, Gen.Rt.Map.get (some l') t [] = Gen.Rt.Map.get (some l) t []) →
+          ∃ msgs due n',
+            (if (Gen.Rt.len (Gen.Rt.Map.get (some l') pm.MsgType [] ++ [pm]) == Gen.Rt.len kids) = true then
+              some (pm.MsgType, Gen.Rt.Map.get (some l') pm.MsgType [] ++ [pm], true,
+                ({ messageTypeFlags := fl, msgQueue := Gen.Rt.Map.erase
+                    (some ((pm.MsgType, Gen.Rt.Map.get (some l') pm.MsgType [] ++ [pm]) :: l')) pm.MsgType } :
+                  Gen.C04.TreeNodeInstance))
+            else some (pm.MsgType, [], false,
+                ({ messageTypeFlags := fl, msgQueue :=
+                    some ((pm.MsgType, Gen.Rt.Map.get (some l') pm.MsgType [] ++ [pm]) :: l') } :
+                  Gen.C04.TreeNodeInstance))) = some (pm.MsgType, msgs, due, n') ∧
+            n'.messageTypeFlags = fl ∧
+            queuesOf par.ID n'.msgQueue =
+              (aggregate (cfgOf ⟨fl, some l⟩ root kids) (queuesOf par.ID (some l)) (msgOf par.ID pm)).1 ∧
+            (if due then some (msgs.map (msgOf par.ID)) else none) =
+              (aggregate (cfgOf ⟨fl, some l⟩ root kids) (queuesOf par.ID (some l)) (msgOf par.ID pm)).2 := by
+        intro l' hget
+        have hlen : (Gen.Rt.len (Gen.Rt.Map.get (some l') pm.MsgType [] ++ [pm]) == Gen.Rt.len kids) =
+            decide ((queuesOf par.ID (some l) (msgOf par.ID pm).ty ++ [msgOf par.ID pm]).length = kids.length) := by
+          simp [Gen.Rt.len, queuesOf, msgOf, hget, harith]
+        have hn : (cfgOf ⟨fl, some l⟩ root kids).nChildren = kids.length := rfl
+        have hty : (msgOf par.ID pm).ty = pm.MsgType := rfl
+        by_cases hd : (queuesOf par.ID (some l) (msgOf par.ID pm).ty ++ [msgOf par.ID pm]).length = kids.length
+        · simp only [hlen, hd, decide_true, if_true]
+          refine ⟨_, true, _, rfl, rfl, ?_, ?_⟩
+          · simp only [aggregate, hbyp, Bool.false_eq_true, if_false, hn, hd, if_true]
+            funext t
+            simp only [queuesOf, get_erase, hty]
+            by_cases ht : t = pm.MsgType
+            · simp [ht]
+            · simp [ht, get_insert, hget]
+          · simp only [aggregate, hbyp, Bool.false_eq_true, if_false, hn, hd, if_true]
+            simp [queuesOf, hget, hty]
+        · simp only [hlen, hd, decide_false, Bool.false_eq_true, if_false]
+          refine ⟨_, false, _, rfl, rfl, ?_, ?_⟩
+          · simp only [aggregate, hbyp, Bool.false_eq_true, if_false, hn, hd]
+            funext t
+            simp only [queuesOf, get_insert, hty]
+            by_cases ht : t = pm.MsgType
+            · simp [ht, hget]
+            · simp [ht, hget]
+          · simp only [aggregate, hbyp, Bool.false_eq_true, if_false, hn, hd]
+      rcases Option.eq_none_or_eq_some (Gen.Rt.Map.find (some l) pm.MsgType) with h | ⟨v, h⟩
+      · -- no entry yet: `n.msgQueue[mt] = make([]*ProtocolMsg, 0)`
+        simp only [h, Option.isSome_none, Bool.not_false, if_true, Gen.Rt.Map.insert?]
+        refine tail ((pm.MsgType, []) :: l) (fun t => ?_)
+        rw [get_insert]
+        by_cases ht : t = pm.MsgType
+        · subst ht; simp [Gen.Rt.Map.get, h]
+        · simp [ht]
+      · simp only [h, Option.isSome_some, Bool.not_true, Bool.false_eq_true, if_false, Gen.Rt.Map.insert?]
+        exact tail l (fun _ => rfl)
 end C04
